@@ -8,6 +8,7 @@
        (resource, slot) pair is booked twice, for every project (Model/Sched.v). *)
 From Coq Require Import QArith List Lia.
 Require Import SP.Model.Ledger SP.Proofs.LedgerProofs SP.Model.Sched SP.Proofs.SchedInv SP.Proofs.SchedFinal.
+Require Import SP.Model.Alap SP.Proofs.AlapProofs.
 Import ListNotations.
 
 Theorem C01_cell : forall G ops, (0 < G)%Q -> Forall (op_ok G) ops -> Ledger.Inv G (run G ops).
@@ -41,3 +42,10 @@ Example C01_example_total : (total (entries (run 3600 C01_example_ops)) == 3600)
 Proof. split; vm_compute; reflexivity. Qed.
 Example C01_example_hyp : Forall (op_ok 3600) C01_example_ops.
 Proof. repeat constructor; cbn; try discriminate. Qed.
+
+(* ---- backward (ALAP) mode: the project record is read backwards (Model/Alap.v: t_deps = successor edges,
+   t_pin = own end, t_lb = earliest deadline of the enclosing containers, n = p_upper slots) and the schedule
+   is the mirror image of the forward schedule of the mirrored project *)
+Theorem C01_alap : forall p, NoDup (map key (alap_bookings p)).
+Proof. exact alap_no_double_booking. Qed.
+Print Assumptions C01_alap.
